@@ -52,7 +52,8 @@ def nchunks(tier):
 def _decl(rng):
     d = optgen.rand_decl(rng, nmax=7, env_rate=0.0, required_rate=0.0, groups=True)
     for o in d["opts"]:
-        o["default"] = None
+        if o["kind"] != "t":
+            o["default"] = None       # toggles keep their declared default (0, 1, 3 or none)
         o["optional"] = True
         o["rev"] = False
     return d
@@ -260,10 +261,12 @@ def evaluate(case, lines, S):
             if (n in ob.prov) != bool(want):
                 diffs.append(("provided", "multi-option %r provided flag wrong" % n))
         else:
-            want = asg["t"].get(n, 0)
+            spelled = asg["t"].get(n, 0)
+            want = spelled if spelled > 0 else (o.get("default") or 0)
             if ob.t.get(n) != want:
-                diffs.append(("toggle-count", "toggle %r: spelled %d times, counted %r" % (n, want, ob.t.get(n))))
-            if (n in ob.prov) != (want > 0):
+                diffs.append(("toggle-count", "toggle %r (default %r): spelled %d times, counted %r" %
+                              (n, o.get("default"), spelled, ob.t.get(n))))
+            if (n in ob.prov) != (spelled > 0):
                 diffs.append(("provided", "toggle %r provided flag wrong" % n))
     if ob.pos != asg["pos"]:
         diffs.append(("positionals", "positionals: spelled %r, parsed %r" % (asg["pos"], ob.pos)))
